@@ -14,8 +14,29 @@ def _run_chunk(args):
     try:
         func(chunk, st, *extra)
     except BaseException as e:  # a crash of the harness itself must not be silent
-        st.harness_errors.append('worker crashed: %s\n%s' % (e, traceback.format_exc()[-1500:]))
+        site = tool_site(e)
+        if site is not None:
+            # raised inside the audited code while the check drove one of its entry points directly: that is an observation about
+            # the code under test (on the unchanged tree these calls all return), not a defect of the harness
+            st.violation('tool-raised:%s:%s:%s' % (type(e).__name__, site, getattr(func, '__name__', '?')),
+                         {'exception': '%s: %s' % (type(e).__name__, e), 'traceback_tail': traceback.format_exc()[-1200:]})
+        else:
+            st.harness_errors.append('worker crashed: %s\n%s' % (e, traceback.format_exc()[-1500:]))
     return st
+
+
+def tool_site(e):
+    """'file.py:function' if the innermost frame of the exception lies in the audited source tree, else None"""
+    if isinstance(e, (KeyboardInterrupt, SystemExit, MemoryError)) or type(e).__name__ in ('Hang', 'HarnessError'):
+        return None
+    frames = traceback.extract_tb(e.__traceback__)
+    if not frames:
+        return None
+    inner = frames[-1]
+    fn = inner.filename.replace('\\', '/')
+    if '/ssh_audit/' in fn or fn.endswith('/ssh-audit.py'):
+        return '%s:%s' % (fn.rsplit('/', 1)[-1], inner.name)
+    return None
 
 
 def pmap(func, items, extra=(), chunk=None, procs=None, stats=None):
